@@ -13,7 +13,13 @@ TRUSTED_BASE = [
     'hand-written model lean/PysphVerif/Model/SchemeNeeds.lean (closure of precomputed symbols, needs, the real '
     'checkers\' strict-subset / subset tests), tied by the same comparison (needs and verdicts are computed in Lean)',
     'the AST scan for dst.<name> reads in reduce / py_initialize / py_stage* (names of the ParticleArray API excluded)',
-    'compyle / Cython / g++ for the compiled sample',
+    'the AST scan for index uses of array arguments (element inside another subscript, range bound, assigned to a local '
+    'declared int/long/...; cast() and other calls are boundaries; an aliased array argument makes the translator fail); '
+    'validated on every run against Cython\'s own type checker: the real code generator is run with every array typed '
+    'double* and the places Cython flags must coincide, per class and method, with the scan',
+    'the C types in the table are carray.get_c_type() of the arrays after setup_properties; compared on every run with the '
+    'real arrays, and the verdict with get_known_types_for_arrays(get_all_array_names(arrays)) of the real code',
+    'compyle / Cython for the generated-and-cythonized sample, + g++ for the compiled sample',
 ]
 ASSUMPTIONS = [
     'plain particle arrays from pysph.base.utils.get_particle_array named fluid / solid (/ isolid); '
@@ -23,21 +29,28 @@ ASSUMPTIONS = [
     'numeric options enter the grid as zero / positive where the code branches on them; other numbers are fixed',
     'CPU (cython) backend, serial',
     '"a short run leaves all properties finite" is execution of a stratified sample (2 steps, small lattices), not proof',
+    '"code generation succeeds" is proved only as far as the table goes (names present, index-used arguments integer-typed); '
+    'beyond that it is execution: real code generation + Cython translation of a sample covering every scheme and every '
+    'value of every option (pairs of values for the axes with <= 3 values)',
 ]
 READY = True
 DESIGN_REF = '6/C12'
 TECHNIQUE = 'Lean 4 proof by exhaustive generated table (regenerated from the source every run) + validation of the extraction + direct oracle on the real checkers, code generator and a compiled sample'
-LEVEL_TEXT = ("Lean 4 theorems: all_configs_complete / all_option_combinations_complete / all_configs_accepted over the "
+LEVEL_TEXT = ("Lean 4 theorems: all_configs_complete / all_option_combinations_complete / all_configs_accepted / "
+              "all_configs_index_types_ok (every array argument whose elements are used as an index has an integer known "
+              "type; typesOk proved sound, its index part exact) over the "
               "WHOLE table of scheme configurations (17 scheme classes, ~20 600 grid points = options x dim x solids x clean), "
               "decided by the kernel and lifted by complete_of_check (check_sound / check_complete, proved for every table, "
               "kind list and body), with the precomputed-symbol closure proved to be exactly the reachable set and every "
               "legal option combination proved to be a grid point. The table is re-extracted from the current source on "
               "every run by running the schemes; the harness validates the extraction against the real code's own "
-              "functions and evaluates the property directly on the real checkers / code generator for every grid point, "
+              "functions and evaluates the property directly on the real checkers / code generator / known types for "
+              "every grid point, generates and Cython-translates a covering sample (every scheme, every option value), "
               "and compiles + runs a stratified sample.")
 LEVEL_NOTE = ("Proof for the tree the table was generated from (the quantifier is a finite table). Trusted: Lean kernel; the "
               "translator and its grid audit (validated each run); the AST scan for dst.<name> reads; plain arrays named "
               "fluid/solid; EDAC without inlet/outlet manager. 'Code generation succeeds' and 'a short run stays finite' "
-              "are execution (every grid point for the checkers, sample for codegen in quick / all distinct in thorough, "
-              "3 compiled runs quick / ~150 thorough), not proof.")
+              "are execution (every grid point for the checkers and the index-type oracle, sample for codegen in quick / "
+              "all distinct in thorough, ~150 configurations generated + cythonized, 3 compiled runs quick / ~150 "
+              "thorough), not proof.")
 TIMEOUT = {'quick': 1500, 'thorough': 3 * 3600}
